@@ -61,7 +61,8 @@ def gen_case(rng, scale=1):
             "vcf": {"pre": rng.choice(["none", "none", "PS", "HP", "per-sample"]), "decoys": rng.random() < 0.7,
                     "odd_gt": rng.random() < 0.5, "phasing_line": rng.random() < 0.5,
                     "contig_header": rng.random() < 0.8, "odd_defs": rng.random() < 0.3, "undefined_gq": rng.random() < 0.2,
-                    "n_info": rng.randrange(0, 5), "n_fmt": rng.randrange(0, 6), "flip_prob": rng.choice([0.0, 0.5])},
+                    "n_info": rng.randrange(0, 5), "n_fmt": rng.randrange(0, 6), "flip_prob": rng.choice([0.0, 0.5]),
+                    "skipped_only_last": rng.random() < 0.25},
             "opts": {"tag": rng.choice(["PS", "HP"]), "distrust": distrust, "include_hom": bool(distrust and rng.random() < 0.5),
                      "ped": bool(n_trios), "only_snvs": rng.random() < 0.25,
                      "sample_sel": rng.random() < 0.4, "chrom_sel": rng.random() < 0.35}}
@@ -187,6 +188,21 @@ def build_inputs(case, d):
                 alt = rng.choice([x for x in "ACGT" if x != ref])
                 recs.append(dict(chrom=r["chrom"], pos=p, ref=ref, alts=[alt], format=list(fmt_keys),
                                  calls=[other_fields({}, 1) for _ in sc.samples], **site_extras(1)))
+    if v.get("skipped_only_last"):
+        # a last chromosome on which every record is of a kind the reader skips (multi-ALT, no ALT): whatshap sees no
+        # variant at all there, yet all its records belong in the output
+        sc.contigs["chrZ"] = sim.random_seq(rng, 300)
+        seqz = sc.contigs["chrZ"]
+        for p in (40, 90, 150, 210):
+            ref = seqz[p]
+            if rng.random() < 0.5:
+                alts = [x for x in "ACGT" if x != ref][:2]
+                recs.append(dict(chrom="chrZ", pos=p, ref=ref, alts=alts, format=keys,
+                                 calls=[other_fields({"GT": rng.choice(["1/2", "0/2", "0/1", "./."])}, 2) for _ in sc.samples],
+                                 **site_extras(2)))
+            else:
+                recs.append(dict(chrom="chrZ", pos=p, ref=ref, alts=[], format=keys,
+                                 calls=[other_fields({"GT": rng.choice(["0/0", "./."])}, 0) for _ in sc.samples], **site_extras(0)))
     fmt_defs, info_defs = {}, {}
     used_fmt = {k for r in recs for k in r["format"]}
     for k in sorted(used_fmt - {"GT"}):
